@@ -57,6 +57,10 @@ def corpus(quick: bool) -> list[list[str]]:
     add([(("Wa", (("K", (M, E)),)), ("K", (W, W, W, E)), M),
          (("Wa", (("K", (W, W, W, E)),)), W, ("K", (M, E)), M),
          (("K", (("Wa", (("K", (M, E)),)), W, W, E)), M)])
+    # a UOD command that raises inside the command manager's tick (the run goes to its error state in that tick), also after
+    # an output was driven
+    V, Bm = ("V", ()), ("Boom", ())
+    add([(Bm,), (M, Bm), (V, Bm), (V, W, Bm), (("Wa", (Bm,)), V)])
     return out
 
 
